@@ -39,6 +39,7 @@ def wrap_objective(objective, data, pdf, stitch_pars, do_grad=False, jit_pieces=
         def func(pars):
             pars = tensorlib.astensor(pars)
             constrained_pars = stitch_pars(pars)
-            return objective(constrained_pars, data, pdf)[0]
+            # return a NumPy scalar: the minimizers cannot work with a tf.Tensor
+            return objective(constrained_pars, data, pdf).numpy()[0]
 
     return func
